@@ -72,7 +72,7 @@ def c01_plan(pid, tier, seed, t0):
         "document, 3 perturbations, 1 unrelated; 20%% of guiding documents come from the compliance suite). Oracle = reference evaluator on the "
         "generator's tree, compared as JSON with numbers by value. Non-trivial = agreeing non-null result on a tree with >=3 nodes and >=2 node "
         "kinds (>=2 steps in the enumeration); distinct by (tree hash, document hash)." % enum_len,
-        n_quick=200_000,
+        n_quick=600_000,
         n_thorough=60_000_000,
         min_evaluations=50_000,
         extra_args=["--enum-len", enum_len],
@@ -135,7 +135,7 @@ def c03_plan(pid, tier, seed, t0):
         "sampled sentences, numeric-edge index/slice templates. Oracle = strict token-level recognizer of the grammar; an "
         "over-acceptance is attributed to a recorded deviation class only if a subset of the listed relaxations makes the reference "
         "accept it. Non-trivial = lexes to >=3 tokens; distinct by token-kind sequence." % enum_len,
-        n_quick=400_000,
+        n_quick=1_200_000,
         n_thorough=100_000_000,
         min_evaluations=400_000,
         extra_args=["--enum-len", enum_len],
@@ -158,7 +158,7 @@ def c04_plan(pid, tier, seed, t0):
         "star=filter tie-break are both accepted and counted); oracle (2): the twin spellings give identical search results on 4 "
         "documents. Non-trivial = expression with operators of >=2 different binding powers (or a twin that really lost parentheses); "
         "distinct by expression text." % enum_len,
-        n_quick=60_000,
+        n_quick=240_000,
         n_thorough=40_000_000,
         min_evaluations=100_000,
         extra_args=["--enum-len", enum_len],
@@ -297,7 +297,7 @@ def _depth_case(binary, build, fam, depth):
 def c05_plan(pid, tier, seed, t0):
     builds = ["chk", "rel"]
     rundir, staged = o.prepare(builds)
-    n = 320_000 if tier == "quick" else 24_000_000
+    n = 1_000_000 if tier == "quick" else 24_000_000
     per = (n + o.NCPU - 1) // o.NCPU
     merged = None
     death_violations = []
@@ -393,14 +393,14 @@ PLANS["C02"] = generic(
     "recording custom function inside the expression reference of map/sort_by/max_by/min_by: the multiset of recorded arguments must equal the "
     "array's elements, each once; (c) value-guided random trees containing calls nested in projections, multi-selects and other calls vs the "
     "reference evaluator. Non-trivial = non-empty principal argument / non-null nested result; distinct by (expression, document).",
-    n_quick=480_000,
+    n_quick=1_200_000,
     n_thorough=200_000_000,
     min_evaluations=200_000,
     assumptions=["not asserted: which of several equal-key elements max_by/min_by returns; whitespace-padded or out-of-range numerals in to_number; non-finite sums; exprefs passed for 'any' parameters"],
 )
 
 def c06_plan(pid, tier, seed, t0):
-    return _c06(extra_args=["--reps", "3" if tier == "quick" else "100"])(pid, tier, seed, t0)
+    return _c06(extra_args=["--reps", "6" if tier == "quick" else "100"])(pid, tier, seed, t0)
 
 
 def _c06(extra_args):
@@ -425,7 +425,7 @@ PLANS["C06"] = c06_plan
 def c07_plan(pid, tier, seed, t0):
     builds = ["chk", "rel"]
     rundir, staged = o.prepare(builds)
-    n = 160_000 if tier == "quick" else 60_000_000
+    n = 400_000 if tier == "quick" else 60_000_000
     per = (n + o.NCPU - 1) // o.NCPU
     merged = None
     py_records = 0
@@ -590,7 +590,7 @@ PLANS["C08"] = records_plan(
     "within 2 ulp; strings by code point; arrays in order; objects by key set, last duplicate wins); rejection is allowed only for depth>=128, lone "
     "surrogates, numerals out of double range. In-process: print->reparse equal (bit-identical, or within the reader's 2 ulp), Variable -> "
     "serde_json::Value -> Variable (owned and borrowed) identical. Non-trivial = accepted text longer than 8 bytes; distinct by text.",
-    n_quick=200_000, n_thorough=30_000_000, min_evaluations=100_000,
+    n_quick=600_000, n_thorough=30_000_000, min_evaluations=100_000,
     assumptions=["the spelling of negative zero is not asserted ('-0' comes back as '-0.0')", "CPython's json/Decimal are a correct JSON reader"],
 )
 
@@ -603,7 +603,7 @@ PLANS["C09"] = generic(
     "JSON spellings of v with backticks escaped evaluate to v, three JSON-string spellings of k select the marker from an object that also holds "
     "near-miss keys (also as multi-select-hash key and sub-expression); (3) unquoted identifiers; (4) 24 malformed forms are rejected. Non-trivial = "
     "source containing a backslash or non-ASCII character; distinct by source text.",
-    n_quick=240_000, n_thorough=60_000_000, min_evaluations=300_000, needs_ref=False,
+    n_quick=720_000, n_thorough=60_000_000, min_evaluations=300_000, needs_ref=False,
 )
 
 
@@ -618,7 +618,7 @@ PLANS["C12"] = generic(
     "a char boundary, line/column recomputed from (expression, offset), Display compared with an independent renderer, class prefix. Hook "
     "monitor: at every JmespathError::from_ctx the shadow call stack's innermost call offset must equal ctx.offset. Non-trivial = error position "
     "preceded by a multi-byte character or a newline; distinct by (source, offset).",
-    n_quick=320_000, n_thorough=200_000_000, min_evaluations=200_000,
+    n_quick=960_000, n_thorough=200_000_000, min_evaluations=200_000,
 )
 
 
@@ -631,7 +631,7 @@ PLANS["C11"] = generic(
     "tuple/record; !, &&, || vs truth-table combination returning operands; comparisons vs comparing the two results; f(L, R) vs f(@[0], @[1]) on "
     "[L(d), R(d)]. A failing part must fail the compound (same class) unless short-circuiting makes it unreachable. Non-trivial = L(d) non-empty / "
     "non-null and R not the identity; distinct by (compound text, document).",
-    n_quick=100_000, n_thorough=30_000_000, min_evaluations=300_000, needs_ref=False,
+    n_quick=300_000, n_thorough=30_000_000, min_evaluations=300_000, needs_ref=False,
     assumptions=["truthiness of a predicate result is decided by the specification's definition in the harness"],
 )
 
@@ -693,7 +693,7 @@ PLANS["C13"] = generic(
     "value prints the same before and after every search. Evidence only: whether interpret step counts per pair stayed constant. Non-trivial = a "
     "search on a re-used/cloned handle or directly after a failing search of the same expression; distinct by (pool, expression, document, "
     "predecessor outcome).",
-    n_quick=320, n_thorough=300_000, min_evaluations=300_000, needs_ref=False, post=c13_post, extra_args_by_tier={"quick": ["--pools", "8"], "thorough": ["--pools", "192"]},
+    n_quick=640, n_thorough=300_000, min_evaluations=300_000, needs_ref=False, post=c13_post, extra_args_by_tier={"quick": ["--pools", "8"], "thorough": ["--pools", "192"]},
 )
 
 
@@ -707,7 +707,7 @@ PLANS["C14"] = generic(
     "— both Ok and equal, or both Err — on each type's own images AND on every type x a pool of 82 foreign JSON shapes (wrong arity, 0/2-key maps "
     "for enums, floats for integers, out-of-range integers, missing/extra fields). Non-trivial = a deserialisation both sides accepted with equal "
     "values; distinct by (type, JSON).",
-    n_quick=340_000, n_thorough=100_000_000, min_evaluations=300_000, needs_ref=False,
+    n_quick=1_000_000, n_thorough=100_000_000, min_evaluations=300_000, needs_ref=False,
     assumptions=["not asserted: maps with non-string keys, 128-bit integers, borrowed &str/&[u8] targets (outside the statement)", "serde_json is the definition"],
 )
 
@@ -721,7 +721,7 @@ PLANS["C15"] = generic(
     "iff an independent signature check accepts (else the error class, and no invocation). Logged arguments must equal the separately evaluated "
     "argument expressions in source order with expression references passed unevaluated (tree shape compared); plus a call-order probe with "
     "recording functions as arguments (incl. inside a projection). Non-trivial = modelled custom invocation or rejection; distinct by (history, call).",
-    n_quick=4_800, n_thorough=2_400_000, min_evaluations=300_000,
+    n_quick=12_000, n_thorough=2_400_000, min_evaluations=300_000,
 )
 
 
@@ -943,7 +943,7 @@ def c17_plan(pid, tier, seed, t0):
             for c, f in futs.items():
                 path, secs = f.result()
                 staged[c] = o.stage_binary(path, rundir, "matrix-" + c)
-    n = 25_000 if tier == "quick" else 400_000
+    n = 75_000 if tier == "quick" else 2_000_000
     logs = {}
     procs = {c: subprocess.Popen([staged[c], str(seed), str(n), os.path.join(rundir, c + ".log")], stdout=subprocess.PIPE, stderr=subprocess.PIPE, env=o.ENV)
              for c in configs}
@@ -1041,7 +1041,7 @@ PLANS["C17"] = c17_plan
 def c18_plan(pid, tier, seed, t0):
     rundir, staged = o.prepare(["chk", ("chk", "jpbuild", "jp")])
     jp = staged["jpbuild"]
-    n = 3_200 if tier == "quick" else 200_000
+    n = 6_400 if tier == "quick" else 200_000
     per = (n + o.NCPU - 1) // o.NCPU
     procs = []
     for s in range(o.NCPU):
